@@ -3,8 +3,9 @@
     strconv.ParseFloat oracle: every statement holds for all oracles
     (C19_same_interpretation and C19_sharing_implies_checked under the contract
     that parsing the empty string fails with value 0). *)
-From Coq Require Import String ZArith.
+From Coq Require Import String ZArith List.
 From KaiV Require Import Model.Strconv Model.GpuRequest Model.GpuRequestSpec Proofs.GpuRequest.
+Import ListNotations.
 
 (** Every accepted request denotes finite positive quantities: a finite
     fraction strictly between 0 and 1, GPU memory and device count in (0, 2^63). *)
@@ -42,6 +43,46 @@ Theorem C19_mutate_idempotent :
     mutate idx fresh' (mutate idx fresh p) = mutate idx fresh p.
 Proof. exact mutate_idempotent. Qed.
 Print Assumptions C19_mutate_idempotent.
+
+(** Updates: the stored pod the scheduler reads after ANY sequence of creations and
+    updates (each decided by the webhook on the new object; a refused write changes
+    nothing) was accepted by the validation, hence denotes a finite positive request
+    that the scheduler interprets as exactly that request.  (The real
+    ValidateCreate / ValidateUpdate entry points are compared with this validation
+    on every generated pod, for an update from an admitted pod with and without a
+    request: Run/C19.v k_hooks.) *)
+Theorem C19_stored_pod_after_any_updates :
+  forall (sharing_enabled : bool) (pf : string -> pfres) (writes : list gpod) (p : gpod),
+    pf_contract pf ->
+    stored_after sharing_enabled pf writes = Some p ->
+    wellformed_sharing pf p = true
+    /\ (normalised p = true -> scheduler_interpret pf p = denoted pf p).
+Proof.
+  intros en pf writes p C H. pose proof (stored_pod_is_validated en pf writes p H) as V.
+  split; [exact (accepted_is_finite_positive en pf p V)|intros N; exact (same_interpretation en pf p C V N)].
+Qed.
+Print Assumptions C19_stored_pod_after_any_updates.
+
+(** The update clause is needed: an update path that skips the validation when the
+    (non-annotation) spec is unchanged lets an admitted pod be rewritten into one
+    whose request is not finite positive (gpu-fraction "NaN"), which the scheduler
+    still types as GPU sharing.  Witness by computation; [write_skipping_unchanged_spec]
+    is not the code. *)
+Definition ex_nan_pod : gpod :=
+  {| a_fraction := Some "NaN"%string; a_memory := a_memory ex_pod; a_numdev := a_numdev ex_pod; a_mps := a_mps ex_pod;
+     a_cname := a_cname ex_pod; a_cm := a_cm ex_pod; p_name := p_name ex_pod; containers := containers ex_pod;
+     inits := inits ex_pod; volumes := volumes ex_pod |}.
+Definition nan_pf : string -> pfres :=
+  fun s => if String.eqb s "NaN" then {| pf_bits := 9221120237041090561%N; pf_err := false |} else ex_pf s.
+Theorem C19_update_must_be_validated :
+  admission_validate true nan_pf ex_pod = true
+  /\ admission_validate true nan_pf ex_nan_pod = false
+  /\ fold_left (write true nan_pf) [ex_pod; ex_nan_pod] None = Some ex_pod
+  /\ fold_left (write_skipping_unchanged_spec true nan_pf) [ex_pod; ex_nan_pod] None = Some ex_nan_pod
+  /\ wellformed_sharing nan_pf ex_nan_pod = false
+  /\ is_sharing (scheduler_interpret nan_pf ex_nan_pod) = true.
+Proof. repeat split; vm_compute; reflexivity. Qed.
+Print Assumptions C19_update_must_be_validated.
 
 (** Non-vacuity: the hypotheses of the three implications are met by a concrete pod. *)
 Theorem C19_nonvacuous :
